@@ -88,6 +88,10 @@ def seeded_run(case, unit, reuse=None):
             sim.run_monte_carlo(iterations=1, start_time=TimeStamp(), stop_time=stop, time_step=step, time_unit=c17.U(unit), callback=cb,
                                 save_dir=d, save_iterations=[1], debug=True)
     hist = {name: {round(float(t) * float(c17.FACT[unit] / 3600), 9): v for t, v in ps.history[name].items()} for name in ("ENS", "SAIDI", "SAIFI")}
+    # every logged quantity of the system and of each of its networks (energies in MWh, durations in hours, ratios)
+    for obj in [ps] + list(ps.child_network_list):
+        for name, series in obj.history.items():
+            hist[f"{obj.name}.{name}"] = {round(float(t) * float(c17.FACT[unit] / 3600), 9): float(v) for t, v in series.items()}
     mc = {}
     if case.get("entry", "seq") != "seq":
         # the Monte Carlo result files of the system and its networks (dimensionless or hour-valued indices)
@@ -128,9 +132,12 @@ def seeded_case(case):
         if sorted(r["hist"]["ENS"]) != sorted(base["hist"]["ENS"]):
             viols.append(("unit.axis", f"reporting unit {UNITS[u]}: logged instants (rescaled to hours) {sorted(r['hist']['ENS'])[:5]}... differ from the HOUR run {sorted(base['hist']['ENS'])[:5]}..."))
         else:
-            for name in ("ENS", "SAIDI", "SAIFI"):
-                if any(abs(r["hist"][name][t] - base["hist"][name][t]) > 1e-9 * max(1, abs(base["hist"][name][t])) for t in base["hist"][name]):
-                    viols.append(("unit.index", f"reporting unit {UNITS[u]} vs HOUR: {name} history differs"))
+            for name in base["hist"]:
+                bad = [t for t in base["hist"][name] if abs(r["hist"][name][t] - base["hist"][name][t]) > 1e-9 * max(1, abs(base["hist"][name][t]))]
+                if bad:
+                    t = bad[0]
+                    viols.append(("unit.index", f"reporting unit {UNITS[u]} vs HOUR: history of {name} differs, e.g. at t={t} h: {r['hist'][name][t]} vs {base['hist'][name][t]}"))
+                    break
     nf = sum(1 for f in base["fails"] if f[1])
     return dict(ops=[], impl=[], viols=viols[:3], nontrivial=("seeded", tuple(case["units"]), min(nf, 10), base["nlog"] > 0, case.get("entry"), case.get("step_unit")), tag="seeded")
 
